@@ -26,7 +26,7 @@ func UnmarshalUint(v any) (uint, error) {
 			}
 			return 0, err
 		}
-		return uint(u64), err
+		return safeCastUint(u64)
 	case int:
 		if v < 0 {
 			return 0, newUintSignError(strconv.FormatInt(int64(v), 10))
@@ -36,7 +36,7 @@ func UnmarshalUint(v any) (uint, error) {
 		if v < 0 {
 			return 0, newUintSignError(strconv.FormatInt(v, 10))
 		}
-		return uint(v), nil
+		return safeCastUint(uint64(v))
 	case json.Number:
 		u64, err := strconv.ParseUint(string(v), 10, 64)
 		if err != nil {
@@ -46,7 +46,7 @@ func UnmarshalUint(v any) (uint, error) {
 			}
 			return 0, err
 		}
-		return uint(u64), err
+		return safeCastUint(u64)
 	case nil:
 		return 0, nil
 	default:
@@ -189,6 +189,16 @@ func newUint32OverflowError(i uint64) *Uint32OverflowError {
 
 func (e *Uint32OverflowError) Unwrap() error {
 	return e.IntegerError
+}
+
+// safeCastUint guards the conversion on platforms where uint is narrower than uint64.
+func safeCastUint(i uint64) (uint, error) {
+	if i > math.MaxUint {
+		return 0, &IntegerError{
+			Message: fmt.Sprintf("%d overflows unsigned %d-bit integer", i, strconv.IntSize),
+		}
+	}
+	return uint(i), nil
 }
 
 func safeCastUint32(i uint64) (uint32, error) {
